@@ -29,14 +29,14 @@ CHECKS = {
          "Walks over parameter values incl. unauthorized updates and genesis-set values."),
  "C19": ("exploration", "byte-equality of recorded-history replays across fresh worlds, parallel goroutines and fresh processes (runtime differential monitor)", "5.C19",
          "Acknowledgement bytes, tx results, ordered events, gas, every AppHash, exported state; streams are built from the error corpora so that as many error paths as possible are committed."),
-"C03": ("fault_enumeration", "k-th-call fault injection at every wrapped dependency of an alternative keeper over the same stores; oracle 'fault fired => error acknowledgement and no surviving effect'", "5.C03",
-         "Complete enumeration of single faults (site x k) for 24 payload shapes, through the bare middleware and through the real core handler with the alternative stack installed in the IBC router; natural failures of the real dependencies on the native wiring."),
+"C03": ("fault_enumeration", "k-th-call fault injection at every wrapped dependency of an alternative keeper over the same stores, and out-of-gas aborts at every gas-consumption point of the receive path on the native wiring (gas meter as failpoint); oracles 'fault fired => error acknowledgement and no surviving effect', 'cut => never a success, nothing left in process memory'", "5.C03",
+         "Complete enumeration of single faults (site x k) for 24 payload shapes, through the bare middleware and through the real core handler with the alternative stack installed in the IBC router; natural failures of the real dependencies on the native wiring; one delivery per gas-consumption point (quick: every 6th, thorough: all ~5300) each followed by the fault-free delivery, which must reproduce the reference result; transfers at the statistics representation limit must be complete when acknowledged."),
  "C05": ("exploration", "payload spec vs request recorded at the bridge boundary (alternative keeper) and vs the bridges' typed events (native wiring)", "5.C05",
          "Field-by-field equality for all CCTP / Hyperlane / bank request fields, exactly-one-call counters, complete (protocol id x attribute type) matrix, deposit-replacement message incl. a real attested replace."),
  "C06": ("exploration", "model fold of the action list vs a recording, really swapping test controller registered as ACTION_SWAP plus the recorded bridge request and statistics", "5.C06",
          "Orders over {fee, swap} incl. repeated ids and a registry with only the swap controller; the swap controller must see the running coin, fees are floor on the running coin, the forwarded and recorded coin is the last action's output."),
- "C07": ("exploration", "twin chains with / without the middleware fed the same signed transaction stream (equal AppHash, results, events) and per-packet twin branches (equal ack, events, store digests)", "5.C07",
-         "Differential oracle: the chain without the middleware is the specification for all traffic not addressed to the orbiter, incl. send, acknowledgement and timeout paths."),
+ "C07": ("exploration", "twin chains with / without the middleware fed the same signed transaction stream (equal AppHash, results, events) and per-packet twin branches (equal ack, events, store digests); every other callback through middleware(recording stub) vs the stub (same single call, arguments, result, events, gas, state)", "5.C07",
+         "Differential oracle: the chain without the middleware is the specification for all traffic not addressed to the orbiter, incl. send, acknowledgement and timeout paths; handshake, close, acknowledgement, timeout, send, write-acknowledgement and app-version callbacks with generated arguments around a recording stub application and, for acknowledgements and timeouts, around the real ICS-20 application."),
  "C16": ("exploration", "differential against ICS-20: coin released from escrow (ledger) vs coin forwarded and recorded; one-hop-native predicate on every accepted packet", "5.C16",
          "Denomination grammar x source ends x amount encodings, incl. a genuine two-hop voucher whose ibc/ denom sits in the channel escrow."),
  "C17": ("exploration", "export -> validate -> init -> export equality (document, raw store, probe behaviour) at history checkpoints; accepted-implies-initialisable over generated documents", "5.C17",
